@@ -7,7 +7,8 @@ From RareV Require Import Base.Hex Base.Res Base.Num Model.Lines Model.Batch Mod
 Import ListNotations.
 
 (* aggregator behind the command: 0 histogram (MatchCounter), 1 table/heatmap/spark (TableAggregator),
-   2 bargraph (SubKeyCounter), 3 other (analyze, reduce: only determinism and exit status are checked) *)
+   2 bargraph (SubKeyCounter), 3 analyze (determinism of the snapshot text without its status line, exit status),
+   4 reduce (AccumulatingGroup) *)
 Record c03out := {
   k_kind : N;
   k_runs : list (Z * bytes)     (* per tuning variant: exit status, stdout *)
@@ -44,6 +45,44 @@ Definition all_same (rs : list (Z * bytes)) : bool :=
   | (c0, o0) :: r => forallb (fun p => (fst p =? c0)%Z && bytes_eqb (snd p) o0) r
   end.
 
+(* reduce -g {1} -g {2} -a total={sumi {.} {3}} -a n={sumi {.} 1} over keys g1 NUL g2 NUL inc: the C07 model of
+   AccumulatingGroup (Agg.a_run) with the expression evaluator of Model/Agg.v; WriteAccumulator prints the
+   group expressions and accumulator names as header and one row per group: its key fields, then its
+   accumulators. Row order is the group-key sort (C13), so rows are compared as a set of equal size. *)
+Definition bad_type : bytes := of_str "<BAD-TYPE>".
+Definition reduce_def : adef expr :=
+  mkAD [EMatch 1; EMatch 2]
+       [(of_str "total", ESumi ECur (EMatch 3), of_str "0"); (of_str "n", ESumi ECur (ELit (of_str "1")), of_str "0")].
+Fixpoint split0 (fuel : nat) (st : option bytes) : list bytes :=
+  match fuel, st with
+  | Datatypes.O, _ => []
+  | _, None => []
+  | Datatypes.S f, Some s => let '(a, st') := Agg.cut 0%N s in a :: split0 f st'
+  end.
+Definition reduce_rows (keys : list bytes) : list (list bytes) :=
+  map (fun gr : bytes * list bytes => split0 (Datatypes.S (List.length (fst gr))) (Some (fst gr)) ++ snd gr)
+      (a_run expr (eval_expr bad_type) reduce_def keys).
+Definition reduce_rows_ok (keys : list bytes) (rows : list (list bytes)) : bool :=
+  match rows with
+  | hd :: body =>
+      bl_eq hd [of_str "{1}"; of_str "{2}"; of_str "total"; of_str "n"] &&
+      (List.length body =? List.length (reduce_rows keys))%nat &&
+      forallb (fun r => existsb (bl_eq r) body) (reduce_rows keys) &&
+      forallb (fun r => existsb (bl_eq r) (reduce_rows keys)) body
+  | [] => false
+  end.
+(* analyze: a key is a parse error iff it is not a number; the generator's increments are signed
+   decimals (always numbers, whatever their size) or contain a letter *)
+Definition is_decimal (s : bytes) : bool :=
+  let ds := match s with 45%N :: r => r | 43%N :: r => r | _ => s end in
+  negb (Nat.eqb (List.length ds) 0) && forallb (fun c => (48 <=? c)%N && (c <=? 57)%N) ds.
+Fixpoint starts_with (p s : bytes) : bool :=
+  match p, s with
+  | [], _ => true
+  | a :: p', b :: s' => N.eqb a b && starts_with p' s'
+  | _ :: _, [] => false
+  end.
+
 Definition C03_check (i : pin) (o : c03out) : bool :=
   let r := ref_of i in
   let keys := map e_key (Extract.s_matches r) in
@@ -62,7 +101,11 @@ Definition C03_check (i : pin) (o : c03out) : bool :=
       | 2%N => let s := s_run keys in
                (code =? exit_code nread (N.to_nat (Agg.s_errors s)) matched)%Z &&
                match csv_read out with Some rows => rows_eq rows (subkey_rows s) | None => false end
-      | _ => true
+      | 4%N => (code =? exit_code nread 0 matched)%Z &&
+               match csv_read out with Some rows => reduce_rows_ok keys rows | None => false end
+      | _ => (* analyze: same text under every variant (above), not a usage error, exit status *)
+               starts_with (of_str "Samples:") out &&
+               (code =? exit_code nread (List.length (filter (fun k => negb (is_decimal k)) keys)) matched)%Z
       end
   | [] => false
   end.
